@@ -31,10 +31,15 @@ type cfg struct {
 	missDelay                            int
 	seq                                  []op
 	seqName                              string
+	ilv                                  uint64 // log2 of the bank interleave (0 = 6: one 64-byte line)
 }
 
 func (c cfg) String() string {
-	return fmt.Sprintf("banks%d/w%d/d%d/l%d/post%d/top%d/row%d:%d/%s", c.banks, c.width, c.depth, c.lat, c.post, c.topbuf, c.rowLog2, c.missDelay, c.seqName)
+	s := fmt.Sprintf("banks%d/w%d/d%d/l%d/post%d/top%d/row%d:%d/%s", c.banks, c.width, c.depth, c.lat, c.post, c.topbuf, c.rowLog2, c.missDelay, c.seqName)
+	if c.ilv != 0 {
+		s += fmt.Sprintf("/interleave2^%d", c.ilv)
+	}
+	return s
 }
 
 // class is the configuration class used in violation signatures: the
@@ -58,13 +63,20 @@ func (c cfg) class() string {
 
 const memSize = 4096
 
+func ilvOf(c cfg) uint64 {
+	if c.ilv == 0 {
+		return 6
+	}
+	return c.ilv
+}
+
 func body(c cfg) explore.Body {
 	return func(x *explore.Exec) *explore.Violation {
 		w := world.New(x, 600)
 		b := simplebankedmemory.MakeBuilder().WithEngine(w.Engine).WithFreq(w.Freq).
 			WithNumBanks(c.banks).WithBankPipelineWidth(c.width).WithBankPipelineDepth(c.depth).
 			WithStageLatency(c.lat).WithPostPipelineBufferSize(c.post).WithTopPortBufferSize(c.topbuf).
-			WithLog2InterleaveSize(6).WithNewStorage(1 << 20)
+			WithLog2InterleaveSize(ilvOf(c)).WithNewStorage(1 << 20)
 		if c.rowLog2 > 0 {
 			b = b.WithRowBufferSizeLog2(c.rowLog2).WithRowMissDelay(c.missDelay)
 		}
@@ -263,7 +275,7 @@ func main() {
 									if quick && len(s.f(bk)) > 5 {
 										continue
 									}
-									cfgs = append(cfgs, cfg{bk, wd, dp, lt, ps, tb, rw.log2, rw.delay, s.f(bk), s.name})
+									cfgs = append(cfgs, cfg{bk, wd, dp, lt, ps, tb, rw.log2, rw.delay, s.f(bk), s.name, 0})
 								}
 							}
 						}
@@ -271,6 +283,28 @@ func main() {
 				}
 			}
 		}
+	}
+	// bank interleave other than one 64-byte line: 16-byte blocks (neighbouring blocks of one line live in
+	// different banks; accesses stay inside one block) and 256-byte blocks
+	sub := []struct {
+		name string
+		ops  []op
+	}{
+		{"subline-neighbours", []op{{true, 0x10, 4, 0}, {false, 0x00, 4, 0}, {true, 0x10, 4, 0}, {false, 0x20, 4, 0}, {false, 0x10, 4, 0}, {false, 0x00, 4, 0}}},
+		{"subline-other-row-between", []op{{false, 0x810, 4, 0}, {false, 0x00, 4, 0}, {true, 0x10, 4, 0}, {false, 0x814, 4, 0}, {false, 0x10, 4, 0}}},
+		{"subline-write-write-read", []op{{true, 0x24, 8, 0}, {true, 0x14, 8, 0}, {true, 0x24, 8, 1}, {false, 0x10, 16, 0}, {false, 0x20, 16, 0}}},
+	}
+	for _, bk := range []int{2, 4} {
+		for _, wd := range []int{1, 2} {
+			for _, rw := range rows {
+				for _, sq := range sub {
+					cfgs = append(cfgs, cfg{bk, wd, 2, 1, 1, 4, rw.log2, rw.delay, sq.ops, sq.name, 4})
+				}
+			}
+		}
+	}
+	for _, rw := range rows {
+		cfgs = append(cfgs, cfg{2, 1, 2, 1, 1, 4, rw.log2, rw.delay, []op{{true, 0x100, 8, 0}, {false, 0x00, 8, 0}, {true, 0x00, 8, 0}, {false, 0x100, 8, 0}, {false, 0x00, 8, 0}}, "two-banks-256", 8})
 	}
 	bound := 2
 	if r.Thorough() {
@@ -281,7 +315,7 @@ func main() {
 		scs = append(scs, harness.Scenario{Name: c.String(), Bound: bound, Body: body(c)})
 	}
 	r.Assume = []string{
-		"accesses do not cross an interleave unit (64 B): a banked model serves one access in one bank",
+		"accesses do not cross an interleave unit (64 B by default; 16 B and 256 B in the interleave configurations): a banked model serves one access in one bank",
 		"arrival order = order of delivery into the Top port's incoming buffer",
 		"row-miss delay >= 1 when row tracking is on (delay 0 disables the mechanism in the code)",
 	}
